@@ -555,3 +555,11 @@ def encryption_targets_the_whole_policy(ctx):
     clause (C15.dnf-keeps-clauses) — a clause that loses an attribute is opened by keys the policy excludes."""
     from . import c15
     c15.dnf_keeps_clauses(ctx)
+
+
+@rule('C02', 'instance-is-stateless')
+def instance_is_stateless(ctx):
+    """'Unauthorized keys never recover a secret', whatever was done before with the same scheme instance: the rights a policy denotes are computed from the access structure of the key that is given, never remembered from another one. Structurally: the scheme instance holds its random generator and nothing else — no cache, no memo, no static, no
+    thread-local (C19.state-audit)."""
+    from . import c19
+    c19.state_audit(ctx)
